@@ -175,6 +175,9 @@ func genCSV(t *tape.Tape, o GenOpts) *World {
 	for _, r := range w.LRecs {
 		w.RecTexts = append(w.RecTexts, w.Render(r))
 	}
+	if MaybeScalarOutput(t, decls, m, o) {
+		w.SetTag("scalar-output", "1")
+	}
 	w.Schema = BuildSchema("csv", enc, fd, decls)
 	w.UsesJS, w.Ext = js || w.UsesJS, ext
 	w.Name = fmt.Sprintf("gen:csv(fields=%d,recs=%d,delim=%q,hdr=%d)", sh.NFields, len(w.LRecs), delim, hdr)
@@ -327,6 +330,9 @@ func genCSV2(t *tape.Tape, o GenOpts) *World {
 	if trailer && len(w.LRecs) == 0 {
 		w.Suffix = strings.TrimPrefix(w.Suffix, eol)
 	}
+	if MaybeScalarOutput(t, decls, m, o) {
+		w.SetTag("scalar-output", "1")
+	}
 	w.Schema = BuildSchema("csv2", enc, fd, decls)
 	w.UsesJS, w.Ext = js || w.UsesJS, ext
 	w.Name = fmt.Sprintf("gen:csv2(layout=%d,fields=%d,items=%d,recs=%d)", layout, sh.NFields, sh.NItemFields, len(w.LRecs))
@@ -453,6 +459,9 @@ func genFixed(t *tape.Tape, o GenOpts) *World {
 	if layout == 2 && len(w.LRecs) == 0 {
 		w.Suffix = strings.TrimPrefix(w.Suffix, eol)
 	}
+	if MaybeScalarOutput(t, decls, m, o) {
+		w.SetTag("scalar-output", "1")
+	}
 	w.Schema = BuildSchema("fixed-length", enc, fd, decls)
 	w.UsesJS, w.Ext = js || w.UsesJS, ext
 	w.Name = fmt.Sprintf("gen:fixed-length(layout=%d,fields=%d,width=%d,recs=%d)", layout, sh.NFields, width, len(w.LRecs))
@@ -565,6 +574,9 @@ func genFixed2(t *tape.Tape, o GenOpts) *World {
 	drawRecs(t, w, sh, o)
 	if trailer && len(w.LRecs) == 0 {
 		w.Suffix = strings.TrimPrefix(w.Suffix, eol)
+	}
+	if MaybeScalarOutput(t, decls, m, o) {
+		w.SetTag("scalar-output", "1")
 	}
 	w.Schema = BuildSchema("fixedlength2", enc, fd, decls)
 	w.UsesJS, w.Ext = js || w.UsesJS, ext
